@@ -1,4 +1,3 @@
-from copy import copy
 import inspect
 import keyword
 from typing import Any, cast, Dict, List, Tuple, Type, Union
@@ -26,6 +25,18 @@ RESERVED_PROPERTIES = (
     + list(keyword.kwlist)
     + ["_dict", "__dict__", "__weakref__", "__debug__"]
 )
+
+
+def _copy_containers(value: Any) -> Any:
+    """Copy the lists and dicts of a keyword value, at every depth.
+
+    Anything else (E.G. the elements in `dependencies`) is kept as it is.
+    """
+    if isinstance(value, dict):
+        return {key: _copy_containers(val) for key, val in value.items()}
+    if isinstance(value, list):
+        return [_copy_containers(val) for val in value]
+    return value
 
 
 def _docstring(description: Any) -> str:
@@ -125,14 +136,7 @@ class ObjectMeta(type, Element):
         def previous(attr, default):
             # Inherited containers are copied, so that editing them on the
             # subclass does not edit the base class.
-            value = getattr(cls, attr, default)
-            if isinstance(value, dict):
-                # E.G. the property lists of `dependencies`.
-                return {
-                    key: copy(val) if isinstance(val, list) else val
-                    for key, val in value.items()
-                }
-            return copy(value) if isinstance(value, list) else value
+            return _copy_containers(getattr(cls, attr, default))
 
         get_value = (
             lambda value, attr: value
